@@ -15,6 +15,7 @@ import (
 	"pegverif/drive"
 	"pegverif/fake"
 	"pegverif/kit"
+	"pegverif/sqlw"
 )
 
 // C11 Grading rewards and FCT burns are issued exactly as decided, once.
@@ -30,6 +31,8 @@ func init() {
 type c11Scenario struct {
 	name   string
 	class  string
+	// fault: the first write of a winner row in the scenario block fails once (the block is rolled back and retried by the daemon)
+	fault bool
 	blocks func(b *drive.Builder, holders []int) []drive.BlockSpec // scenario blocks, built against the forked builder (prev winners tracked there)
 }
 
@@ -147,6 +150,10 @@ func c11Scenarios(era drive.Era) []c11Scenario {
 	}
 	// consecutive blocks: graded, ungraded, graded (previous winners across the gap), short block between
 	out = append(out, c11Scenario{name: "opr/three-consecutive", class: "opr", blocks: nil})
+	out = append(out, c11Scenario{name: "opr/three-consecutive+retried-after-transient-fault", class: "opr-retried", blocks: nil, fault: true})
+	out = append(out, c11Scenario{name: fmt.Sprintf("opr/%d-valid+retried-after-transient-fault", W+1), class: "opr-retried", fault: true, blocks: func(b *drive.Builder, _ []int) []drive.BlockSpec {
+		return []drive.BlockSpec{{ExtraOPR: c11OPRs(b, W+1, 300)}}
+	}})
 	if era.V20 == 0 {
 		for _, n := range []int{24, 25, 26} {
 			for _, who := range []string{"top-holder", "holder-101", "non-holder"} {
@@ -308,6 +315,17 @@ func c11One(c *core.Ctx, r *core.Result, w *World, era drive.Era, sc c11Scenario
 		pre, err := ReadLedger(drive.DBFileOf(run.DBPath))
 		if err != nil {
 			panic(err)
+		}
+		if sc.fault {
+			d := run.Open(nil)
+			fired := false
+			d.DB.SetHooks(&sqlw.Hooks{Before: func(op *sqlw.Op) error {
+				if !fired && strings.Contains(op.SQL, "pn_winners") && op.Kind != "prepare" {
+					fired = true
+					return fmt.Errorf("injected transient storage failure")
+				}
+				return nil
+			}})
 		}
 		if out := run.SyncTo(bi.h); !out.Reached {
 			r.Count("inconclusive-"+outcomeClass(out), 1)
